@@ -17,9 +17,14 @@ type Syn struct {
 }
 
 var synBare = []string{"a", "b", "c", "x1", "_y", "col", "T", "U", "where", "asc", "desc", "nulls", "first", "last", "kind", "on", "with",
-	"let", "count", "take", "top", "join", "project", "render", "as", "true", "false", "null", "inner", "$left", "$right", "sum", "f", "not", "iff"}
+	"let", "count", "take", "top", "join", "project", "render", "as", "true", "false", "null", "inner", "$left", "$right", "sum", "f", "not", "iff",
+	// words that are enumerations or keywords in the Kusto dialect this language follows
+	"visible", "hidden", "linear", "log", "none", "axes", "panels", "stacked", "unstacked", "default", "innerunique", "leftouter", "limit", "filter", "order", "sort", "extend", "summarize",
+	// the same words in other letter cases
+	"NOT", "IsNull", "COUNT", "Where", "TRUE", "Null", "K", "k"}
 var synQuoted = []string{"q", "a b", "x`y", "we ird\"", "by", "and", "é", "1", "a.b", "sel'ect", "/*", "--", ";", "\\", "let", "in", "$left", "count()", "where"}
-var synFuncs = []string{"f", "g", "sum", "min", "max", "not", "isnull", "isnotnull", "iff", "iif", "strcat", "tolower", "toupper", "now", "count", "countif", "coalesce", "asc", "where"}
+var synFuncs = []string{"f", "g", "sum", "min", "max", "not", "isnull", "isnotnull", "iff", "iif", "strcat", "tolower", "toupper", "now", "count", "countif", "coalesce", "asc", "where",
+	"NOT", "ISNULL", "IsNull", "STRCAT", "IFF", "COUNT", "ToLower", "NOW", "CountIf"}
 var synNums = []string{"0", "1", "2", "42", "007", "1.5", ".5", "5.", "1e3", "1E-2", "2.5e+3", "0x1F", "0XaB", "0e0", "18446744073709551615", "00.10"}
 var synStrs = [][2]string{{`'s'`, "s"}, {`"t"`, "t"}, {`''`, ""}, {`'it\'s'`, "it's"}, {`"a\nb"`, "a\nb"}, {`'a"b'`, `a"b`}, {`"x\\y"`, `x\y`},
 	{`'é;|)'`, "é;|)"}, {`"// no comment"`, "// no comment"}, {`'\t'`, "\t"}, {"'a\xffb'", "a\xffb"}, {`'\q'`, "q"}}
